@@ -256,9 +256,10 @@ def run_cases(ctx, specs):
 
 
 def run(ctx):
-    ok = kernel_setup(ctx, needed=())
+    ok = kernel_setup(ctx, needed=(), soft=("py2v_mcmc.py",))  # Gen/McmcGen.v: setup_mcmc and KeplerianOrbit as the source has them now
     if ok:
         ctx.build_props()
+        ctx.build_props("Props/C11g.vo")  # the generated model: the sampler's mean anomaly, Keplerian term + trend in design-matrix order, jitter-inflated data term
     else:
         ctx.obligations += 1
     specs = load_corpus("C11") + gen_cases(ctx)
